@@ -183,7 +183,38 @@ def strategy():
     )
 
 
+def enum_small(col, shard, nshards):
+    """join and + over every short list drawn from the degenerate operands (no runs at all, one empty run, '', one character,
+    one formatted character) with four separators: the classes that matter are met at every seed"""
+    import itertools
+
+    pool = [{"desc": []}, {"desc": [["", {}]]}, {"desc": [["", {"fg": 31}]]}, {"str": ""}, {"str": "a"}, {"desc": [["b", {"fg": 31}]]}, {"desc": [], "sub": 1}]
+    seps = [{"desc": [[", ", {"fg": 34}]]}, {"desc": []}, {"desc": [["", {"bold": True}]]}, {"desc": [["-", {}]]}]
+    i = 0
+    for n in (0, 1, 2, 3):
+        for items in itertools.product(pool, repeat=n):
+            for sep in seps:
+                i += 1
+                if i % nshards != shard:
+                    continue
+                case = {"op": "join", "sep": sep, "items": [dict(x) for x in items], "iterable": i}
+                unknown = col.record(case, run_case(case), distinct=True, sample=False)
+                if unknown:
+                    col.add_violation(case, unknown)
+    for l in pool:
+        for r in pool:
+            i += 1
+            if i % nshards != shard:
+                continue
+            case = {"op": "add", "left": dict(l), "right": dict(r)}
+            unknown = col.record(case, run_case(case), distinct=True, sample=False)
+            if unknown:
+                col.add_violation(case, unknown)
+    col.exhaustive["join_and_add_over_degenerate_operands"] = True
+
+
 def campaign(col, tier, seed, shard, nshards):
+    enum_small(col, shard, nshards)
     n = 2400 if tier == "quick" else 320000
     hyp_campaign(col, strategy(), run_case, max(n // nshards, 100), seed * 100 + shard)
     if tier == "thorough":
